@@ -107,8 +107,12 @@ def rand_zone(gen, rnd, z):
 
 
 def rtimer(rnd):
-    return {"disabled": rnd.random() < 0.4, "hour": rnd.randint(0, 23),
-            "minute": rnd.randint(0, 59)}
+    t = {"disabled": rnd.random() < 0.4, "hour": rnd.randint(0, 23), "minute": rnd.randint(0, 59)}
+    if t["disabled"] and rnd.random() < 0.5:
+        # the time bits of a disabled timer are to be ignored: they need not be a time
+        t["raw"] = bytes([0x80 | rnd.choice([0x7F, 0x18, 0x1F, rnd.randint(0, 0x7F)]),
+                          rnd.choice([0xFF, 0x3C, 0x3F, rnd.randint(0, 255)])])
+    return t
 
 
 def cases(tier, seed):
